@@ -42,7 +42,14 @@ Semantic conventions of the emitted text (all elementary):
   * a boolean parameter listed in cfg["specialize"] is a compile-time constant: the function is
     translated once per value and `if <param>` picks its branch statically (needed where the
     two branches build results of different types: redundant(groups=...));
-  * `[e for k in xs]` over a list variable is `map (fun k => e) xs`; `a if c else b` is `if`."""
+  * `[e for k in xs]` over a list variable is `map (fun k => e) xs`; `a if c else b` is `if`;
+  * chunked_iter only: `while True:` over a shared one-shot iterator `it` (a list of the items
+    still to come) is a fuelled fixpoint over a step function state -> (go_on?, state); `break`
+    returns go_on = false; `x = list(itertools.islice(it, n))` binds x := firstn n it and
+    it := skipn n it; `len(x)` is `length x`; `x[lc:] = [v] * (n)` is
+    x := firstn lc x ++ repeat v n (nat subtraction truncates at 0 exactly like `[v] * negative`
+    is []); its prelude (kw.pop('fill') in try/except, the early return for an empty sized
+    src, the postprocess dispatch) is compared literally."""
 import ast
 import os
 
@@ -81,6 +88,27 @@ elif not is_scalar(sep):
     def sep_func(x): return x in sep
 else:
     def sep_func(x): return x == sep
+''',
+    "chunked_iter": '''
+if not is_iterable(src):
+    raise TypeError('expected an iterable')
+size = _validate_positive_int(size, 'chunk size')
+do_fill = True
+try:
+    fill_val = kw.pop('fill')
+except KeyError:
+    do_fill = False
+    fill_val = None
+if kw:
+    raise ValueError('got unexpected keyword arguments: %r' % kw.keys())
+if not src:
+    return
+
+def postprocess(chk): return chk
+if isinstance(src, (str, bytes)):
+    def postprocess(chk, _sep=type(src)()): return _sep.join(chk)
+    if isinstance(src, bytes):
+        def postprocess(chk): return bytes(chk)
 ''',
     "unique_iter": '''
 if not is_iterable(src):
@@ -143,6 +171,14 @@ CFG = {
         "carried_free": ["sep_func"],      # free names of the loop that the body may re-bind
         "out": "list (list K)", "types": {"sep_func": "K -> bool", "cur_group": "list K", "split_count": "nat"},
     },
+    "chunked_iter": {
+        "while": True,
+        "kinds": {"src_iter": "iter", "cur_chunk": "locallist", "lc": "localnat", "size": "nat", "do_fill": "bool",
+                  "fill_val": "elemparam", "postprocess": "listfun"},
+        "gparams": "(size : nat) (do_fill : bool) (fill_val : K) (postprocess : list K -> list K)",
+        "gargs": "size do_fill fill_val postprocess", "carried_free": [],
+        "out": "list (list K)", "types": {"src_iter": "list K"},
+    },
     "unique_iter": {
         "params": ["src", "key"], "defaults": ["Constant(value=None)"],
         "kinds": {"key_func": "fun", "seen": "set", "i": "elem", "k": "elem"},
@@ -191,8 +227,8 @@ class _Tr:
     def expr(self, e):
         if isinstance(e, ast.Name):
             k = self.kind(e.id, e)
-            if k in ("noneflag", "optpred", "truthyflag", "static"):
-                _fail(e, "%s may only be tested" % e.id)
+            if k in ("noneflag", "optpred", "truthyflag", "static", "listfun"):
+                _fail(e, "%s may only be tested / called" % e.id)
             if e.id not in self.scope:
                 _fail(e, "read of unbound %s" % e.id)
             return e.id
@@ -227,12 +263,21 @@ class _Tr:
         if isinstance(e, ast.Call) and isinstance(e.func, ast.Name) and not e.keywords:
             if e.func.id == "set" and not e.args:
                 return "[]"
+            if e.func.id == "len" and len(e.args) == 1 and isinstance(e.args[0], ast.Name) \
+                    and self.kind(e.args[0].id, e) in ("list", "locallist"):
+                return "(length %s)" % self.expr(e.args[0])
+            if len(e.args) == 1 and self.kind(e.func.id, e) == "listfun":
+                return "(%s %s)" % (e.func.id, self.expr(e.args[0]))
             if len(e.args) == 1 and self.kind(e.func.id, e) in ("fun",):
                 if e.func.id not in self.scope:
                     _fail(e, "call of unbound %s" % e.func.id)
                 return "(%s %s)" % (e.func.id, self.expr(e.args[0]))
         if isinstance(e, ast.BinOp) and isinstance(e.op, ast.Add):
             return "(%s + %s)" % (self.expr(e.left), self.expr(e.right))
+        if isinstance(e, ast.BinOp) and isinstance(e.op, ast.Sub) and self._natlike(e.left) and self._natlike(e.right):
+            return "(%s - %s)" % (self.expr(e.left), self.expr(e.right))
+        if isinstance(e, ast.BinOp) and isinstance(e.op, ast.Mult) and isinstance(e.left, ast.List) and len(e.left.elts) == 1:
+            return "(repeat %s %s)" % (self.expr(e.left.elts[0]), self.expr(e.right))
         _fail(e, "unsupported expression")
 
     def cond(self, t):
@@ -260,8 +305,10 @@ class _Tr:
             _fail(t, "unsupported comparison")
         if isinstance(t, ast.Name):
             k = self.kind(t.id, t)
-            if k == "list":
+            if k in ("list", "locallist"):
                 return "(negb (is_nil %s))" % self.expr(t)
+            if k == "bool":
+                return self.expr(t)
             if k == "truthyflag":
                 return "%s_truthy" % t.id
             if k == "static":
@@ -284,7 +331,7 @@ class _Tr:
 
     def _natlike(self, e):
         if isinstance(e, ast.Name):
-            return self.kind(e.id, e) in ("nat", "optnat")
+            return self.kind(e.id, e) in ("nat", "optnat", "localnat")
         return isinstance(e, ast.Constant) and isinstance(e.value, int)
 
     # ---------------------------------------------------------------- statements
@@ -305,6 +352,29 @@ class _Tr:
         try:
             if isinstance(s, ast.Expr) and isinstance(s.value, ast.Constant) and isinstance(s.value.value, str):
                 return self.block(rest, ind, final)
+            # x = list(itertools.islice(it, n))
+            if isinstance(s, ast.Assign) and len(s.targets) == 1 and isinstance(s.targets[0], ast.Name) \
+                    and ast.dump(s.value).startswith("Call(func=Name(id='list', ctx=Load()), args=[Call(func=Attribute(value=Name(id='itertools', ctx=Load()), attr='islice'") \
+                    and not s.value.keywords and len(s.value.args) == 1 and len(s.value.args[0].args) == 2 \
+                    and not s.value.args[0].keywords and isinstance(s.value.args[0].args[0], ast.Name) \
+                    and self.kind(s.value.args[0].args[0].id, s) == "iter" and self.kind(s.targets[0].id, s) == "locallist":
+                x, it = s.targets[0].id, s.value.args[0].args[0].id
+                n = self.expr(s.value.args[0].args[1])
+                itx = self.expr(s.value.args[0].args[0])
+                self.bind(x, s)
+                self.bind(it, s)
+                return (ind + "let %s := firstn %s %s in\n" % (x, n, itx) + ind + "let %s := skipn %s %s in\n" % (it, n, itx)
+                        + self.block(rest, ind, final))
+            # x[lc:] = e
+            if isinstance(s, ast.Assign) and len(s.targets) == 1 and isinstance(s.targets[0], ast.Subscript) \
+                    and isinstance(s.targets[0].value, ast.Name) and self.kind(s.targets[0].value.id, s) == "locallist" \
+                    and isinstance(s.targets[0].slice, ast.Slice) and s.targets[0].slice.upper is None \
+                    and s.targets[0].slice.step is None and isinstance(s.targets[0].slice.lower, ast.Name) \
+                    and self._natlike(s.targets[0].slice.lower):
+                x = s.targets[0].value.id
+                e = "(firstn %s %s ++ %s)" % (self.expr(s.targets[0].slice.lower), self.expr(s.targets[0].value), self.expr(s.value))
+                self.bind(x, s)
+                return ind + "let %s := %s in\n" % (x, e) + self.block(rest, ind, final)
             if isinstance(s, ast.Assign) and len(s.targets) == 1 and isinstance(s.targets[0], ast.Name):
                 e = self.expr(s.value)
                 x = s.targets[0].id
@@ -313,6 +383,10 @@ class _Tr:
                 return ind + "let %s := %s in\n" % (x, e) + self.block(rest, ind, final)
             if isinstance(s, ast.Pass):
                 return self.block(rest, ind, final)
+            if isinstance(s, ast.Break):
+                if not getattr(self, "in_while", False):
+                    _fail(s, "break outside the while loop")
+                return ind + self.break_text() + "\n"
             if isinstance(s, ast.Assign) and len(s.targets) == 1 and isinstance(s.targets[0], ast.Subscript) \
                     and isinstance(s.targets[0].value, ast.Name) \
                     and self.kind(s.targets[0].value.id, s) in ("dict_elem", "dict_list"):
@@ -360,7 +434,7 @@ class _Tr:
             if isinstance(s, ast.Continue):
                 if not self.in_loop:
                     _fail(s, "continue outside the loop")
-                return ind + self.end() + "\n"
+                return ind + (self.end_while() if getattr(self, "in_while", False) else self.end()) + "\n"
             if isinstance(s, ast.Return):
                 if self.in_loop or rest:
                     _fail(s, "return is only supported as the last statement of the function")
@@ -440,8 +514,59 @@ class _Tr:
         check(stmts)
 
     # ---------------------------------------------------------------- function
+    def while_function(self, fname, fn):
+        """chunked_iter: [docstring] <literal prelude> it = iter(src); while True: body; [return]"""
+        cfg = self.cfg
+        a = fn.args
+        if [x.arg for x in a.args] != ["src", "size"] or a.vararg or not a.kwarg or a.kwarg.arg != "kw" or a.kwonlyargs \
+                or a.posonlyargs or a.defaults or fn.decorator_list:
+            _fail(fn, "unexpected signature")
+        body = list(fn.body)
+        if body and isinstance(body[0], ast.Expr) and isinstance(body[0].value, ast.Constant):
+            body = body[1:]
+        want = _dump_src(PRELUDES[fname])
+        got = [ast.dump(s) for s in body[:len(want)]]
+        if got != want:
+            k = next((i for i, (x, y) in enumerate(zip(got, want)) if x != y), min(len(got), len(want)))
+            _fail(body[k] if k < len(body) else fn, "the prelude of %s is not the expected one" % fname)
+        body = body[len(want):]
+        if len(body) not in (2, 3) or ast.dump(body[0]) != ast.dump(ast.parse("src_iter = iter(src)").body[0]):
+            _fail(fn, "expected `src_iter = iter(src)` followed by the while loop")
+        loop = body[1]
+        if not (isinstance(loop, ast.While) and isinstance(loop.test, ast.Constant) and loop.test.value is True and not loop.orelse):
+            _fail(loop, "expected `while True:`")
+        if len(body) == 3 and not (isinstance(body[2], ast.Return) and body[2].value is None):
+            _fail(body[2], "expected a bare return after the loop")
+        self.state = ["src_iter", "_out"]
+        self.locals_ok = {"cur_chunk", "lc"}
+        self.in_loop = True
+        self.in_while = True
+        self.break_text = lambda: "(false, (src_iter, _out))"
+        self.scope = {"src_iter", "_out", "size", "do_fill", "fill_val", "postprocess"}
+        step = self.block(list(loop.body), "    ", lambda: "(true, (src_iter, _out))")
+        # `continue`/end of body both go round again
+        g = "G" + fname
+        sty = "(list K) * (%s)" % cfg["out"]
+        text = "Definition %s_step %s (st : %s) : bool * (%s) :=\n  let '(src_iter, _out) := st in\n%s.\n\n" % (
+            g, cfg["gparams"], sty, sty, step.rstrip("\n"))
+        text += ("Fixpoint %s_while (fuel : nat) %s (st : %s) : option (%s) :=\n"
+                 "  match fuel with\n  | O => None\n  | S fuel' =>\n"
+                 "      let '(go_on, st') := %s_step %s st in\n"
+                 "      if go_on then %s_while fuel' %s st' else Some st'\n  end.\n\n") % (
+            g, cfg["gparams"], sty, sty, g, cfg["gargs"], g, cfg["gargs"])
+        text += ("Definition %s (fuel : nat) (src : list K) %s : option (%s) :=\n"
+                 "  let src_iter := src in\n  let _out := [] in\n"
+                 "  match %s_while fuel %s (src_iter, _out) with\n  | Some (_, _out) => Some _out\n  | None => None\n  end.\n") % (
+            g, cfg["gparams"], cfg["out"], g, cfg["gargs"])
+        return text
+
+    def end_while(self):
+        return "(true, (src_iter, _out))"
+
     def function(self, fname, fn):
         cfg = self.cfg
+        if cfg.get("while"):
+            return self.while_function(fname, fn)
         a = fn.args
         if [x.arg for x in a.args] != cfg["params"] or a.vararg or a.kwarg or a.kwonlyargs or a.posonlyargs \
                 or [ast.dump(d) for d in a.defaults] != cfg["defaults"] or fn.decorator_list:
@@ -509,7 +634,7 @@ class _Tr:
         return text
 
 
-FUNCTIONS = ["split_iter", "unique_iter", "bucketize", "redundant"]
+FUNCTIONS = ["split_iter", "unique_iter", "bucketize", "redundant", "chunked_iter"]
 
 
 def translate(repo, only=None):
@@ -544,6 +669,8 @@ def selftest(repo):
         ("    if maxsplit is not None:\n        maxsplit = int(maxsplit)\n", "    if maxsplit is not None:\n        maxsplit = int(maxsplit)\n    src = reversed(list(src))\n"),
         ("    if callable(sep):\n        sep_func = sep", "    if callable(sep):\n        sep_func = sep\n        cur_group = [sep]"),
         ("                redundant_groups[k] = [seen[k], i]", "                redundant_groups[k] = [i, i]"),
+        ("            cur_chunk[lc:] = [fill_val] * (size - lc)", "            cur_chunk[lc:] = [fill_val] * size"),
+        ("        if not cur_chunk:\n            break", "        if len(cur_chunk) < size:\n            break"),
         ("        ret = [redundant_groups[k][1] for k in redundant_order]", "        ret = [redundant_groups[k][0] for k in redundant_order]"),
     ]
     seen = 0
